@@ -6,7 +6,7 @@ from hypothesis import strategies as st
 
 # Text without NUL and surrogates (HDF5 variable-length strings cannot store NUL; h5py rejects both)
 TEXT = st.text(alphabet=st.characters(blacklist_characters='\x00', blacklist_categories=('Cs',)), max_size=12)
-NASTY = st.sampled_from(['', ' ', 'a,b', '"q"', "it's", 'line\nbreak', 'crlf\r\nx', 'ünï', '日本語', 'tab\t', ' lead', 'trail ', '0', 'None', 'nan'])
+NASTY = st.sampled_from(['u\u0308ber', 'A\u030a', '\u212b', '\uf900', '\u1100\u1161', 'ﬁ', '', ' ', 'a,b', '"q"', "it's", 'line\nbreak', 'crlf\r\nx', 'ünï', '日本語', 'tab\t', ' lead', 'trail ', '0', 'None', 'nan'])
 ID_TEXT = st.one_of(TEXT, NASTY, st.text(alphabet='abcXYZ019_.-/', min_size=1, max_size=10))
 
 JSON_LEAF = st.one_of(st.none(), st.booleans(), st.integers(-2 ** 70, 2 ** 70), st.floats(allow_nan=False, allow_infinity=False), TEXT, NASTY)
